@@ -62,8 +62,11 @@ def ask(cfg, name, d, noise, pkgname, srctime=SRC):
     from pysmi import error
     from pysmi.searcher import AnyFileSearcher, PyFileSearcher, PyPackageSearcher, StubSearcher
     shutil.rmtree(d, ignore_errors=True)
-    os.makedirs(d)
     kind = cfg['kind']
+    early = None
+    if cfg.get('born') == 'before':      # the searcher exists before its directory does
+        early = AnyFileSearcher(d).setOptions(exts=['.json', '.txt']) if kind == 'any' else PyFileSearcher(d)
+    os.makedirs(d)
     if kind == 'pypkg':
         with open(os.path.join(d, '__init__.py'), 'w') as fh:
             fh.write('')
@@ -82,7 +85,9 @@ def ask(cfg, name, d, noise, pkgname, srctime=SRC):
                 put_plain(p, fresh)
         os.makedirs(os.path.join(d, '__pycache__'), exist_ok=True)
         put_pyc(os.path.join(d, '__pycache__', name + '.cpython-312.pyc'), {'k': 'file', 't': 2, 'magic': True, 'hash': False})
-    if kind == 'any':
+    if early is not None:
+        s = early
+    elif kind == 'any':
         s = AnyFileSearcher(d).setOptions(exts=['.json', '.txt'])
     elif kind == 'py':
         s = PyFileSearcher(d)
